@@ -27,6 +27,20 @@ static std::map<std::string, long> g_counts;
 static long g_samples_left = 6;
 static void count(const std::string& k, long n = 1) { g_counts[k] += n; }
 static std::mutex g_m;
+// live bytes held through operator new (C08 heap census, server_heap.h): exact, from the allocator's own block sizes; the sanitizer
+// flavours own operator new, the census runs in the plain flavour only
+static std::atomic<long> g_live_bytes{0};
+#if !defined(__SANITIZE_ADDRESS__) && !defined(__SANITIZE_THREAD__)
+#include <malloc.h>
+static inline void* census_alloc(size_t n) { void* p = malloc(n ? n : 1); if (!p) throw std::bad_alloc(); g_live_bytes.fetch_add((long)malloc_usable_size(p), std::memory_order_relaxed); return p; }
+static inline void census_free(void* p) noexcept { if (!p) return; g_live_bytes.fetch_sub((long)malloc_usable_size(p), std::memory_order_relaxed); free(p); }
+void* operator new(size_t n) { return census_alloc(n); }
+void* operator new[](size_t n) { return census_alloc(n); }
+void operator delete(void* p) noexcept { census_free(p); }
+void operator delete[](void* p) noexcept { census_free(p); }
+void operator delete(void* p, size_t) noexcept { census_free(p); }
+void operator delete[](void* p, size_t) noexcept { census_free(p); }
+#endif
 static bool wait_for(std::function<bool()> f, double sec) { double end = lv::now() + sec; while (lv::now() < end) { if (f()) return true; lv::msleep(2); } return f(); }
 static int peer_port(const std::shared_ptr<Tcp::Peer>& peer) { return (int)ntohs((uint16_t)peer->address().port()); }
 
@@ -273,6 +287,8 @@ struct LifeTcpHandler : public Tcp::Handler {
 };
 struct SpyTransport : public Tcp::Transport {
     explicit SpyTransport(const std::shared_ptr<Tcp::Handler>& h) : Tcp::Transport(h) { std::lock_guard<std::mutex> g(g_m); all().push_back(this); }
+    // (Listener::bind() makes a prototype with the factory, clones it per worker and drops it: the registry holds live transports only)
+    ~SpyTransport() override { std::lock_guard<std::mutex> g(g_m); auto& v = all(); v.erase(std::remove(v.begin(), v.end(), this), v.end()); }
     static std::vector<SpyTransport*>& all() { static std::vector<SpyTransport*> v; return v; }
     size_t peerCount() const { return peers.size(); }
     std::shared_ptr<Aio::Handler> clone() const override { return std::make_shared<SpyTransport>(handlerCopy()); }
@@ -462,6 +478,7 @@ static void run_c08(long cases) {
 }
 
 #include "server_more.h"
+#include "server_heap.h"
 
 int main(int argc, char** argv) {
     g_opts = parse_opts(argc, argv);
@@ -470,6 +487,7 @@ int main(int argc, char** argv) {
     if (prop == "c14s") run_c14s(g_opts.cases);
     else if (prop == "c14t") run_c14t(g_opts.cases);
     else if (prop == "c08") run_c08(g_opts.cases);
+    else if (prop == "c08h") run_c08h(g_opts.cases);
     else run_more(prop, g_opts.cases);
     g_distinct.flush();
     Json s; s.str("t", "sum").num("evaluations", g_evals);
